@@ -45,7 +45,7 @@ theorem nonce_wrong_rejected (env : Env) (stNonce stBal : Nat) (t : Tx) (h : t.n
     validateSender env stNonce stBal t ≠ none :=
   fun hn => h (validateSender_none hn)
 
-private def env0 : Env := { isPublic := false, maxFee := fun _ _ => some 0, sysCheck := fun _ _ => none }
+private def env0 : Env := { isPublic := false, maxAER := 1000, maxFee := fun _ _ => some 0, sysCheck := fun _ _ => none }
 private def tx0 : Tx :=
   { nonce := 8, account := [2, 1], recipient := [3], amount := [5], payload := [], gasLimit := 0, gasPrice := [],
     type := 4, chainIdHash := [9], sign := [7], hash := [], size := 10, gov := none, cmd := .none }
@@ -63,7 +63,7 @@ theorem nonce_wraps : validateSender env0 (2 ^ 64 - 1) 100 { tx0 with nonce := 0
 
 /-- `Validate` accepts ⇒ the body's ChainIdHash is the one the caller passed (the executing block's
 `bi.ChainIdHash()`, resp. the pool's `acceptChainIdHash`) and the carried Hash is the digest of exactly these fields. -/
-theorem chainid_bound (cid : Bytes) (isPublic : Bool) (t : Tx) (h : validate H cid isPublic t = none) :
+theorem chainid_bound (mx : Nat) (cid : Bytes) (isPublic : Bool) (t : Tx) (h : validate H mx cid isPublic t = none) :
     t.chainIdHash = cid ∧ t.hash = H (hashInput t) := by
   unfold validate at h
   split at h
@@ -80,13 +80,13 @@ theorem chainid_bound (cid : Bytes) (isPublic : Bool) (t : Tx) (h : validate H c
 
 /-- A transaction made for another chain id (or another fork version of this chain's id) is rejected before
 anything else is looked at. -/
-theorem foreign_chain_rejected (cid : Bytes) (isPublic : Bool) (t : Tx) (h : t.chainIdHash ≠ cid) :
-    validate H cid isPublic t = some .chainId := by
+theorem foreign_chain_rejected (mx : Nat) (cid : Bytes) (isPublic : Bool) (t : Tx) (h : t.chainIdHash ≠ cid) :
+    validate H mx cid isPublic t = some .chainId := by
   unfold validate
   rw [if_pos (fun hc => h hc.symm)]
 
 /-- Test on sample values: hypotheses of `chainid_bound` are satisfiable (hash = identity). -/
-example : validate id [9] false { tx0 with hash := hashInput tx0 } = none := by decide
+example : validate id 1000 [9] false { tx0 with hash := hashInput tx0 } = none := by decide
 
 /-! ### 3. Which fields the two digests cover (regenerated lists) -/
 
@@ -130,7 +130,7 @@ passed `Validate` for the block's chain-id hash. -/
 theorem sig_gate (env : Env) (body : Body) (cid : Bytes) (useMempool : Bool) (hit : Tx → Bool)
     (W W' : World) (txs : List Tx) (log : List LogEntry)
     (h : execBlock H Verify env body cid useMempool hit W txs = .ok (W', log)) :
-    ∀ t ∈ txs, Authorised H Verify W.led.names useMempool hit t ∧ validate H cid env.isPublic t = none := by
+    ∀ t ∈ txs, Authorised H Verify W.led.names useMempool hit t ∧ validate H env.maxAER cid env.isPublic t = none := by
   unfold execBlock at h
   split at h
   · cases h
@@ -170,7 +170,7 @@ digest of exactly these fields, Sign), and with a nonce above the state nonce of
 theorem pool_gate (env : Env) (acceptCid : Bytes) (W : World) (inP : Bytes → Bool)
     (extra : World → Bytes → Tx → Option Nat) (t : Tx) (acc : Bytes)
     (h : poolAdmit H Verify env acceptCid W inP extra t = .ok acc) :
-    inP t.hash = false ∧ validate H acceptCid env.isPublic t = none ∧
+    inP t.hash = false ∧ validate H env.maxAER acceptCid env.isPublic t = none ∧
     Verify (poolKey W.led.names t) (H (signInput t)) t.sign = true ∧
     acc = listAccount (if t.named then poolKey W.led.names t else []) t ∧
     wrap64 (W.nonce acc + 1) ≤ t.nonce := by
@@ -212,14 +212,14 @@ hashes are digests of their own fields. Then either the two digest inputs are an
 or `Verify` was evaluated to true on exactly `t`'s key, `t`'s signing digest and `t`'s signature.
 (`hl`: the identifier input is a concatenation without length prefixes, so the split between the signed
 part and the signature is only determined when the two signatures have the same length.) -/
-theorem sig_gate_hit (cid cid' : Bytes) (pub : Bool) (ns : Names) (t p : Tx)
-    (ht : validate H cid pub t = none) (hp : validate H cid' pub p = none)
+theorem sig_gate_hit (mx : Nat) (cid cid' : Bytes) (pub : Bool) (ns : Names) (t p : Tx)
+    (ht : validate H mx cid pub t = none) (hp : validate H mx cid' pub p = none)
     (hpv : Verify (poolKey ns p) (H (signInput p)) p.sign = true)
     (hhit : p.hash = t.hash)
     (ha : t.account.length = 33) (ha' : p.account.length = 33) (hl : p.sign.length = t.sign.length) :
     Collision H (hashInput p) (hashInput t) ∨ Verify t.account (H (signInput t)) t.sign = true := by
-  have h1 := (chainid_bound H cid pub t ht).2
-  have h2 := (chainid_bound H cid' pub p hp).2
+  have h1 := (chainid_bound H mx cid pub t ht).2
+  have h2 := (chainid_bound H mx cid' pub p hp).2
   by_cases heq : hashInput p = hashInput t
   · right
     obtain ⟨hs, hsig⟩ := sign_of_hashInput heq hl
@@ -325,8 +325,8 @@ theorem no_hash_twice (env : Env) (body : Body) (cidOf : Nat → Bytes) (useMemp
   have hi : i < log.length := by omega
   obtain ⟨⟨ci, hvi⟩, _⟩ := hval _ (List.getElem_mem hi)
   obtain ⟨⟨cj, hvj⟩, _⟩ := hval _ (List.getElem_mem hj)
-  have h1 := (chainid_bound H _ _ _ hvi).2
-  have h2 := (chainid_bound H _ _ _ hvj).2
+  have h1 := (chainid_bound H _ _ _ _ hvi).2
+  have h2 := (chainid_bound H _ _ _ _ hvj).2
   by_cases heq : hashInput (log[i]'hi).tx = hashInput (log[j]'hj).tx
   · right
     refine ⟨heq, ?_⟩
@@ -381,7 +381,7 @@ state nonce of its account — so a transaction that the new branch already exec
 not taken back, and one that is taken back can only execute at its exact turn (`nonce_exact`). -/
 theorem reorg_reoffer_safe (env : Env) (acceptCid : Bytes) (W : World) (extra : World → Bytes → Tx → Option Nat) :
     ∀ (olds : List Tx) (P : List PEntry), ∀ e ∈ reoffer H Verify env acceptCid W extra P olds,
-      e ∈ P ∨ (e.tx ∈ olds ∧ validate H acceptCid env.isPublic e.tx = none ∧
+      e ∈ P ∨ (e.tx ∈ olds ∧ validate H env.maxAER acceptCid env.isPublic e.tx = none ∧
                Verify (poolKey W.led.names e.tx) (H (signInput e.tx)) e.tx.sign = true ∧
                wrap64 (W.nonce e.acc + 1) ≤ e.tx.nonce) := by
   intro olds
@@ -412,5 +412,64 @@ theorem reoffer_refuses_executed (env : Env) (acceptCid : Bytes) (W : World) (in
   have := (pool_gate H Verify env acceptCid W inP extra t acc h).2.2.2.2
   rw [wrap64, Nat.mod_eq_of_lt hlt] at this
   omega
+
+/-! ### 9. Non-vacuity: a concrete branch (tests on sample values, identity hash, ideal signatures) -/
+
+-- evaluating the model on sample values by `decide` needs a deeper elaborator recursion limit (not a proof device)
+set_option maxRecDepth 100000
+
+private def kA : Bytes := List.replicate 33 2
+private def kB : Bytes := List.replicate 33 3
+private def cid0 : Bytes := [9, 9]
+private def envT : Env := zeroFeeEnv false (10 ^ 30)
+
+/-- a transfer of `amt` from `a` to `b` with nonce `n`, signed with key `k` -/
+private def xfer (a b k : Bytes) (n amt : Nat) : Tx :=
+  let t : Tx := { nonce := n, account := a, recipient := b, amount := [UInt8.ofNat amt], payload := [], gasLimit := 0, gasPrice := [],
+                  type := 4, chainIdHash := cid0, sign := [], hash := [], size := 100, gov := none, cmd := .none }
+  let t1 := { t with sign := sigEnc k (signInput t) }
+  { t1 with hash := hashInput t1 }
+
+private def w0 : World :=
+  { nonce := fun _ => 0, led := { bal := fun a => if a = kA ∨ a = kB then 1000 else 0, names := fun _ => none, pend := [] } }
+
+private def runT (cid : Bytes) (useMempool : Bool) (W : World) (bs : List (List Tx)) :=
+  runBranch id idealVerify envT stdBody (fun _ => cid) useMempool (fun _ _ => useMempool) 0 W bs
+
+private def okOf {ε α : Type} : Except ε α → Option α
+  | .ok a => some a
+  | .error _ => none
+private def errOf {ε α : Type} : Except ε α → Option ε
+  | .ok _ => none
+  | .error e => some e
+
+/-- The hypotheses of `executed_nonces_seq` / `no_hash_twice` / `sig_gate` are satisfiable: a three-block branch with
+three signed transfers is valid; A executed nonces [1,2], B executed [1], and their state nonces are 2 and 1. -/
+example : (runT cid0 false w0 [[xfer kA kB kA 1 5, xfer kB kA kB 1 7], [xfer kA kB kA 2 1], []]).map
+    (fun r => (noncesOf kA r.2, noncesOf kB r.2, r.1.nonce kA, r.1.nonce kB)) = some ([1, 2], [1], 2, 1) := by
+  decide
+
+/-- ... and the gates bite: a replayed transaction, a transaction signed by the wrong key, a nonce gap, a transaction made
+for another chain id hash: none of these branches is valid. -/
+example : (runT cid0 false w0 [[xfer kA kB kA 1 5], [xfer kA kB kA 1 5]]).isNone = true := by decide
+example : (runT cid0 false w0 [[xfer kA kB kB 1 5]]).isNone = true := by decide
+example : (runT cid0 false w0 [[xfer kA kB kA 2 5]]).isNone = true := by decide
+example : (runT [8] false w0 [[xfer kA kB kA 1 5]]).isNone = true := by decide
+
+/-- A name sender (test): name "n" registered with owner and destination A. Signed by A it consumes A's nonce; signed by B
+the block is refused — also when a transaction with that hash is pooled and the node consults the pool (`hit = true`). -/
+private def wN : World := { w0 with led := { w0.led with names := fun n => if n = [110] then some ⟨kA, kA⟩ else none } }
+
+example : (runT cid0 true wN [[xfer [110] kB kA 1 5]]).map (fun r => (r.1.nonce kA, noncesOf kA r.2)) = some (1, [1]) := by decide
+example : (runT cid0 true wN [[xfer [110] kB kB 1 5]]).isNone = true := by decide
+
+/-- The pool's gate (test): admitted with nonce 1 or (as an orphan) 3; refused when replayed after execution (state nonce 1),
+when signed by another key, and when made for another chain id hash. -/
+example : okOf (poolAdmit id idealVerify envT cid0 w0 (fun _ => false) stdExtra (xfer kA kB kA 1 5)) = some kA ∧
+    okOf (poolAdmit id idealVerify envT cid0 w0 (fun _ => false) stdExtra (xfer kA kB kA 3 5)) = some kA := by decide
+example : errOf (poolAdmit id idealVerify envT cid0 { w0 with nonce := fun _ => 1 } (fun _ => false) stdExtra (xfer kA kB kA 1 5))
+    = some (.s .nonceLow) := by decide
+example : errOf (poolAdmit id idealVerify envT cid0 w0 (fun _ => false) stdExtra (xfer kA kB kB 1 5)) = some .sig := by decide
+example : errOf (poolAdmit id idealVerify envT [8] w0 (fun _ => false) stdExtra (xfer kA kB kA 1 5)) = some (.v .chainId) := by decide
 
 end Aergo.Props.C04
